@@ -36,6 +36,7 @@ class Cfg(object):
         self.ok_w = 14           # weight of "ok" among item outcomes (err and unset weigh 1 each)
         self.fault_leaf_w = 1    # weight of each failing non-item leaf kind among plain leaves (items weigh 6)
         self.empty_structs = True
+        self.itemvalue = False   # statements that call item.value() directly inside a body (out-of-band flush of the item's batch)
         self.cancels = False     # statements that cancel the pending batch of a kind (a client discarding its batch)
         self.reyield = False     # a later statement yields the very same object an earlier yield statement yielded
         self.batch_free = False  # C15: only constant futures / None / plain tasks as leaves
@@ -383,6 +384,9 @@ def decorate_task(s, t, shared_ids):
     if cfg.faults and s.chance(12):
         pos_body = pick_block(s, body)
         pos_body.insert(s.int(0, len(pos_body)), {"op": "raise", "sid": s.sid()})
+    if cfg.itemvalue and s.chance(6):
+        pos_body = pick_block(s, body)
+        pos_body.insert(s.int(0, len(pos_body)), {"op": "itemvalue", "item": item(s), "catch": s.chance(2)})
     if cfg.cancels and s.chance(8):
         pos_body = pick_block(s, body)
         pos_body.insert(s.int(0, len(pos_body)), {"op": "cancel", "kind": s.pick(cfg.kinds)})
